@@ -218,6 +218,13 @@ func (f *archiveFileWriter) Write(p []byte) (int, error) {
 	if err != nil {
 		return 0, err
 	}
+	if f.file != nil {
+		err := f.file.Close()
+		f.file = nil
+		if err != nil {
+			return 0, simpleTrzszError("Close archive file error: %v", err)
+		}
+	}
 	file, _, err := f.transfer.createDirOrFile(f.path, srcFile, true)
 	if err != nil {
 		return 0, err
